@@ -3,4 +3,4 @@ From QV Require Import Cell.Spec Feb.Model Feb.Proofs Feb.Micro.
 Require Extraction.
 Require Import ExtrOcamlBasic.
 Extraction Language OCaml.
-Extraction "../ocaml/gen/c01micro_model.ml" minit mstep mstep_fixed mfinal good_final outcome_of explained finished mrun.
+Extraction "../ocaml/gen/c01micro_model.ml" minit mstep mstep_old mfinal good_final outcome_of explained finished mrun.
